@@ -80,12 +80,35 @@ def c19_2(c: Ctx) -> None:
         c.fail(u, 'the function can fall off its end', 'after the last attempt retry returns None instead of raising the last error', witness=c.path(g.entry, p))
 
 
+def _enclosing_tries(call: ast.AST, stop: ast.AST | None = None) -> list[ast.Try]:
+    """The try statements whose body contains the call, innermost first (up to the retry loop)."""
+    out = []
+    for a in q.ancestors_of(call):
+        if a is stop:
+            break
+        if isinstance(a, ast.Try) and q.lexically_in(call, a, 'body') and a.handlers:
+            out.append(a)
+    return out
+
+
 def attempt_arms(c: Ctx, u: Unit, calls) -> list[ast.ExceptHandler]:
+    """The arms that decide about retrying: the handlers of the OUTERMOST try around the attempt (inside the loop).  Handlers of tries nested inside it see the exception first;
+    they are `inner_arms` and must pass it on untouched (C19.6)."""
     arms = []
     for call in calls:
-        for a in q.ancestors_of(call):
-            if isinstance(a, ast.Try) and q.lexically_in(call, a, 'body'):
-                arms.extend(a.handlers)
+        loop = next((a for a in q.ancestors_of(call) if isinstance(a, (ast.For, ast.While))), None)
+        ts = _enclosing_tries(call, loop)
+        if ts:
+            arms.extend(ts[-1].handlers)
+    return arms
+
+
+def inner_arms(c: Ctx, u: Unit, calls) -> list[ast.ExceptHandler]:
+    arms = []
+    for call in calls:
+        loop = next((a for a in q.ancestors_of(call) if isinstance(a, (ast.For, ast.While))), None)
+        for t in _enclosing_tries(call, loop)[:-1]:
+            arms.extend(t.handlers)
     return arms
 
 
@@ -243,12 +266,26 @@ def c19_6(c: Ctx) -> None:
                 c.ok(where(u, a), f'on the last attempt ({atom} false) the arm can only leave by raising')
             else:
                 c.fail(u, f'attempt arm can complete without raising when {atom} is false', 'after the last attempt the error is swallowed', node=a, witness=c.path(en, p))
-        final = [n for n in g.live_nodes() if n.kind == 'raise' and n.ast is not None and id(n.ast) in inside and n.ast.exc is None]
+        nested = {id(x) for h2 in own_nodes(u.node) if isinstance(h2, ast.ExceptHandler) and h2 is not a and id(h2) in inside for b in h2.body for x in ast.walk(b)}
+        final = [n for n in g.live_nodes() if n.kind == 'raise' and n.ast is not None and id(n.ast) in inside and id(n.ast) not in nested and n.ast.exc is None]
         typed = [n for n in g.live_nodes() if n.kind == 'raise' and n.ast is not None and id(n.ast) in inside and n.ast.exc is not None and U(n.ast.exc) != (a.name or '')]
         if final and not typed:
             c.ok(where(u, final[0].ast), 'the arm re-raises with bare `raise` (the original exception object)')
         else:
             c.fail(u, f'attempt arm raises {[q.stmt_text(n.ast, 40) for n in typed] or "nothing"}', 'the last exception is not propagated as itself', node=a)
+    # an arm nested inside the attempt's try sees the function's exception before the retry logic does: it must hand it on untouched
+    H = c.an.fm.h
+    for ia in inner_arms(c, u, calls):
+        names = handler_type_names(ia)
+        raises = [n for b in ia.body for n in ast.walk(b) if isinstance(n, ast.Raise)]
+        replaced = [r for r in raises if r.exc is not None and U(r.exc) != (ia.name or '')]
+        if replaced:
+            c.fail(u, f'inner arm `except {U(ia.type) if ia.type else "<bare>"}` raises `{q.stmt_text(replaced[0], 50)}`', f'an exception the function raised ({", ".join(names) or "any"} and subclasses) is replaced '
+                   'before the retry logic sees it: retry_on is matched against the replacement, and after the last attempt the caller receives the replacement instead of the last exception raised', node=replaced[0])
+        elif not raises:
+            c.fail(u, f'inner arm `except {U(ia.type) if ia.type else "<bare>"}` does not re-raise', 'an exception the function raised is swallowed inside the attempt: it is neither retried nor propagated', node=ia)
+        else:
+            c.ok(where(u, ia), f'inner arm `except {U(ia.type) if ia.type else "<bare>"}` passes the exception on untouched')
 
 
 
